@@ -10,10 +10,13 @@ Definition pgx_soft : list pg_key := [pgk_Type; pgk_MediaBox; pgk_Resources; pgk
 
 (* d' is d after repairs: only "soft" keys differ, and /Type was only set to /Page, or to /Pages on something that
    has /Kids *)
+Definition pgx_hard (k : pg_key) : Prop := ~ In k pgx_soft /\ k <> pgk_Parent.
+(* ... and /Parent was only rewritten on something that has no /Kids (a page) *)
 Definition pgx_dsim (d d' : pg_dict) : Prop :=
-  (forall k, ~ In k pgx_soft -> pg_dget d' k = pg_dget d k) /\
+  (forall k, pgx_hard k -> pg_dget d' k = pg_dget d k) /\
   (pg_dget d' pgk_Type = pg_dget d pgk_Type \/ pg_dget d' pgk_Type = PvName pgk_Page \/
-   (pg_dget d' pgk_Type = PvName pgk_Pages /\ pg_dget d pgk_Kids <> PvNull)).
+   (pg_dget d' pgk_Type = PvName pgk_Pages /\ pg_dget d pgk_Kids <> PvNull)) /\
+  (pg_dget d' pgk_Parent = pg_dget d pgk_Parent \/ pg_dget d pgk_Kids = PvNull).
 
 Definition pgx_sim (s s' : pg_store) : Prop :=
   forall j, match pg_lookup s j with
@@ -23,27 +26,30 @@ Definition pgx_sim (s s' : pg_store) : Prop :=
             end.
 
 Lemma pgx_dsim_refl : forall d, pgx_dsim d d.
-Proof. intros d. split; [reflexivity|left; reflexivity]. Qed.
+Proof. intros d. split; [reflexivity|split; left; reflexivity]. Qed.
 
-Lemma pgx_kids_hard : ~ In pgk_Kids pgx_soft.
+Lemma pgx_kids_hard : pgx_hard pgk_Kids.
+Proof. split; [|discriminate]. unfold pgx_soft. cbn. intros H. repeat (destruct H as [H|H]; [discriminate|]). exact H. Qed.
+Lemma pgx_count_hard : pgx_hard pgk_Count.
+Proof. split; [|discriminate]. unfold pgx_soft. cbn. intros H. repeat (destruct H as [H|H]; [discriminate|]). exact H. Qed.
+Lemma pgx_mk_hard : pgx_hard pgk_Mk.
+Proof. split; [|discriminate]. unfold pgx_soft. cbn. intros H. repeat (destruct H as [H|H]; [discriminate|]). exact H. Qed.
+Lemma pgx_parent_not_soft : ~ In pgk_Parent pgx_soft.
 Proof. unfold pgx_soft. cbn. intros H. repeat (destruct H as [H|H]; [discriminate|]). exact H. Qed.
-Lemma pgx_count_hard : ~ In pgk_Count pgx_soft.
-Proof. unfold pgx_soft. cbn. intros H. repeat (destruct H as [H|H]; [discriminate|]). exact H. Qed.
-Lemma pgx_mk_hard : ~ In pgk_Mk pgx_soft.
-Proof. unfold pgx_soft. cbn. intros H. repeat (destruct H as [H|H]; [discriminate|]). exact H. Qed.
-Lemma pgx_parent_hard : ~ In pgk_Parent pgx_soft.
-Proof. unfold pgx_soft. cbn. intros H. repeat (destruct H as [H|H]; [discriminate|]). exact H. Qed.
-Lemma pgx_pages_hard : ~ In pgk_Pages pgx_soft.
-Proof. unfold pgx_soft. cbn. intros H. repeat (destruct H as [H|H]; [discriminate|]). exact H. Qed.
+Lemma pgx_pages_hard : pgx_hard pgk_Pages.
+Proof. split; [|discriminate]. unfold pgx_soft. cbn. intros H. repeat (destruct H as [H|H]; [discriminate|]). exact H. Qed.
 
 Lemma pgx_dsim_trans : forall d1 d2 d3, pgx_dsim d1 d2 -> pgx_dsim d2 d3 -> pgx_dsim d1 d3.
 Proof.
-  intros d1 d2 d3 [H1 T1] [H2 T2]. split.
+  intros d1 d2 d3 (H1 & T1 & P1) (H2 & T2 & P2). split; [|split].
   - intros k Hk. rewrite H2, H1 by exact Hk. reflexivity.
   - destruct T2 as [E|[E|[E N]]].
     + rewrite E. exact T1.
     + right; left; exact E.
     + right; right. split; [exact E|]. rewrite <- (H1 pgk_Kids pgx_kids_hard). exact N.
+  - destruct P2 as [E|E].
+    + rewrite E. exact P1.
+    + right. rewrite <- (H1 pgk_Kids pgx_kids_hard). exact E.
 Qed.
 
 Lemma pgx_sim_refl : forall s, pgx_sim s s.
@@ -63,15 +69,17 @@ Qed.
 (* one replaceKey / removeKey of a soft key other than /Type *)
 Lemma pgx_dsim_dset : forall d k v, In k pgx_soft -> k <> pgk_Type -> pgx_dsim d (pg_dset d k v).
 Proof.
-  intros d k v Hk Ht. split.
-  - intros k2 Hk2. apply pg_dget_dset_neq. intros ->. contradiction.
+  intros d k v Hk Ht. split; [|split].
+  - intros k2 [Hk2 _]. apply pg_dget_dset_neq. intros ->. contradiction.
   - left. apply pg_dget_dset_neq. congruence.
+  - left. apply pg_dget_dset_neq. intros E. rewrite <- E in Hk. exact (pgx_parent_not_soft Hk).
 Qed.
 Lemma pgx_dsim_ddel : forall d k, In k pgx_soft -> k <> pgk_Type -> pgx_dsim d (pg_ddel d k).
 Proof.
-  intros d k Hk Ht. split.
-  - intros k2 Hk2. apply pg_dget_ddel_neq. intros ->. contradiction.
+  intros d k Hk Ht. split; [|split].
+  - intros k2 [Hk2 _]. apply pg_dget_ddel_neq. intros ->. contradiction.
   - left. apply pg_dget_ddel_neq. congruence.
+  - left. apply pg_dget_ddel_neq. intros E. rewrite <- E in Hk. exact (pgx_parent_not_soft Hk).
 Qed.
 
 Lemma pgx_sim_upd : forall s i d d', pg_lookup s i = Some (PcObj (PvDict d)) -> pgx_dsim d d' ->
@@ -95,16 +103,18 @@ Qed.
 Lemma pgx_sim_type_page : forall s i, pgx_sim s (pg_obj_set_key s i pgk_Type (PvName pgk_Page)).
 Proof.
   intros s i. unfold pg_obj_set_key. destruct (pg_lookup s i) as [[w|]|] eqn:E; try apply pgx_sim_refl.
-  destruct w; try apply pgx_sim_refl. eapply pgx_sim_upd; [exact E|]. split.
-  - intros k2 Hk2. apply pg_dget_dset_neq. intros ->. apply Hk2. left. reflexivity.
+  destruct w; try apply pgx_sim_refl. eapply pgx_sim_upd; [exact E|]. split; [|split].
+  - intros k2 [Hk2 _]. apply pg_dget_dset_neq. intros ->. apply Hk2. left. reflexivity.
   - right; left. apply pg_dget_dset_eq.
+  - left. apply pg_dget_dset_neq. discriminate.
 Qed.
 Lemma pgx_sim_type_pages : forall s i d, pg_lookup s i = Some (PcObj (PvDict d)) -> pg_dget d pgk_Kids <> PvNull ->
   pgx_sim s (pg_obj_set_key s i pgk_Type (PvName pgk_Pages)).
 Proof.
-  intros s i d E Hk. unfold pg_obj_set_key. rewrite E. eapply pgx_sim_upd; [exact E|]. split.
-  - intros k2 Hk2. apply pg_dget_dset_neq. intros ->. apply Hk2. left. reflexivity.
+  intros s i d E Hk. unfold pg_obj_set_key. rewrite E. eapply pgx_sim_upd; [exact E|]. split; [|split].
+  - intros k2 [Hk2 _]. apply pg_dget_dset_neq. intros ->. apply Hk2. left. reflexivity.
   - right; right. split; [apply pg_dget_dset_eq|exact Hk].
+  - left. apply pg_dget_dset_neq. discriminate.
 Qed.
 Lemma pgx_sim_alloc : forall s c, pgx_sim s (fst (pg_alloc s c)).
 Proof.
@@ -133,7 +143,7 @@ Lemma pgx_sim_mark : forall s s' j, pgx_sim s s' -> pg_lookup s j <> None -> pg_
 Proof.
   intros s s' j H E. specialize (H j). unfold pg_marker, pg_hget, pg_rv.
   destruct (pg_lookup s j) as [[v|]|]; [| |congruence].
-  - destruct v; try (rewrite H; reflexivity). destruct H as (d' & -> & [Hh _]). rewrite (Hh pgk_Mk pgx_mk_hard). reflexivity.
+  - destruct v; try (rewrite H; reflexivity). destruct H as (d' & -> & (Hh & _)). rewrite (Hh pgk_Mk pgx_mk_hard). reflexivity.
   - rewrite H. reflexivity.
 Qed.
 
@@ -144,7 +154,7 @@ Definition pgx_leafy (d : pg_dict) : Prop :=
 
 Lemma pgx_leafy_sim : forall d d', pgx_leafy d -> pgx_dsim d d' -> pgx_leafy d'.
 Proof.
-  intros d d' [Hk Ht] [Hh Hty]. split.
+  intros d d' [Hk Ht] (Hh & Hty & _). split.
   - rewrite (Hh pgk_Kids pgx_kids_hard). exact Hk.
   - destruct Hty as [E|[E|[E N]]].
     + rewrite E. exact Ht.
@@ -180,16 +190,17 @@ Lemma pgx_root_pages_sim : forall p s', pgx_sim (pd_store p) s' -> forall pn, pg
 Proof.
   intros p s' H pn E. unfold pg_root_pages, pg_hget in *. cbn [pd_store pd_root pd_with_store]. cbn [pg_rv] in *.
   specialize (H (pd_root p)). destruct (pg_lookup (pd_store p) (pd_root p)) as [[v|]|]; try discriminate.
-  destruct v; try discriminate. destruct H as (d' & -> & [Hh _]). rewrite (Hh pgk_Pages pgx_pages_hard). exact E.
+  destruct v; try discriminate. destruct H as (d' & -> & (Hh & _)). rewrite (Hh pgk_Pages pgx_pages_hard). exact E.
 Qed.
 
 Lemma pgx_flat_sim : forall p K s', pgx_flat p K -> pgx_sim (pd_store p) s' -> pgx_flat (pd_with_store p s') K.
 Proof.
   intros p K s' (pn & d & Hroot & Hpn & Hkids & Hcount & Hpar & Hpnroot & Hpnk & Hrootk & Hnd & Hleaf & Hinv) H.
-  destruct (pgx_sim_dict _ _ _ _ H Hpn) as (d' & Hpn' & [Hh Hty]).
+  destruct (pgx_sim_dict _ _ _ _ H Hpn) as (d' & Hpn' & (Hh & Hty & Hp)).
   exists pn, d'. cbn [pd_store pd_root pd_invalid pd_with_store].
   split; [eapply pgx_root_pages_sim; eassumption|]. split; [exact Hpn'|].
-  rewrite (Hh pgk_Kids pgx_kids_hard), (Hh pgk_Count pgx_count_hard), (Hh pgk_Parent pgx_parent_hard).
+  assert (pg_dget d' pgk_Parent = pg_dget d pgk_Parent) as -> by (destruct Hp as [E|E]; [exact E|rewrite Hkids in E; discriminate]).
+  rewrite (Hh pgk_Kids pgx_kids_hard), (Hh pgk_Count pgx_count_hard).
   repeat (split; [assumption|]). split; [|exact Hinv].
   intros k Hk. destruct (Hleaf k Hk) as (dk & Ek & Lk). destruct (pgx_sim_dict _ _ _ _ H Ek) as (dk' & Ek' & Sk).
   exists dk'. split; [exact Ek'|eapply pgx_leafy_sim; eassumption].
@@ -281,7 +292,7 @@ Section PgxGapiFlat.
       assert (Ha : (a < length K)%nat) by lia.
       destruct (nth_error K a) as [k|] eqn:Ek; [|apply nth_error_None in Ek; lia].
       assert (Hink : In k K) by (eapply nth_error_In; exact Ek).
-      destruct (pgx_sim_dict _ _ _ _ Hsim Hpn) as (d1 & Hpn1 & [Hh1 _]).
+      destruct (pgx_sim_dict _ _ _ _ Hsim Hpn) as (d1 & Hpn1 & (Hh1 & _)).
       destruct (Hleaf k Hink) as (dk & Edk & Ldk).
       destruct (pgx_sim_dict _ _ _ _ Hsim Edk) as (dk1 & Edk1 & Sdk1).
       pose proof (pgx_leafy_sim _ _ Ldk Sdk1) as Ldk1.
@@ -325,7 +336,7 @@ Proof.
   assert (H1 : pgx_sim s0 s1).
   { unfold s1. destruct (pg_is_dict_of_type s0 (PvRef pn) pgk_Pages); [apply pgx_sim_refl|].
     eapply pgx_sim_type_pages; [exact Hpn|]. rewrite Hkids. discriminate. }
-  destruct (pgx_sim_dict _ _ _ _ H1 Hpn) as (d1 & Hpn1 & [Hh1 _]).
+  destruct (pgx_sim_dict _ _ _ _ H1 Hpn) as (d1 & Hpn1 & (Hh1 & _)).
   assert (Hkids1 : pg_dget d1 pgk_Kids = PvArr (map PvRef K)) by (rewrite (Hh1 pgk_Kids pgx_kids_hard); exact Hkids).
   rewrite (pgx_hget_ref s1 pn d1 pgk_Kids Hpn1), Hkids1. rewrite map_length.
   assert (Hleaf1 : forall k, In k K -> exists dk, pg_lookup s1 k = Some (PcObj (PvDict dk)) /\ pgx_leafy dk).
